@@ -51,7 +51,7 @@ TO_CONSTRAINTS = ["demographic_parity", "selection_rate_parity", "false_positive
                   "true_positive_rate_parity", "true_negative_rate_parity", "equalized_odds"]
 TO_OBJ_SIMPLE = ["selection_rate", "true_positive_rate", "true_negative_rate", "accuracy_score", "balanced_accuracy_score"]
 TO_OBJ_EO = ["accuracy_score", "balanced_accuracy_score"]
-OPS = ["pmf", "const", "rows", "int", "none", "ambient"]
+OPS = ["pmf", "const", "rows", "int", "none", "ambient", "mutate"]
 
 
 def gen_plan(seed, index, tier):
@@ -135,6 +135,8 @@ def gen_plan(seed, index, tier):
         else:
             ops.append([k])
     # guarantee a non-adjacent pair with the same int seed and one of each scripted kind
+    if rng.random() < 0.4:
+        ops.insert(rng.randint(0, len(ops)), ["mutate"])
     ops.insert(0, ["int", int_seed])
     ops.append(["const", "p_rank", rng.randint(0, 20), 1e-12])
     ops.append(["rows", [[rng.choice([-1, 1]), rng.choice([1e-12, 1e-9, 1e-3]), round(rng.uniform(0.01, 0.99), 4)] for _ in range(12)]])
@@ -306,6 +308,30 @@ def execute(plan, ctx):
             ok2, pmf2, site = _pmf(ctx, est, Xq, kw)
             if not ok2 or not np.array_equal(np.asarray(pmf2, dtype=float), np.asarray(pmf, dtype=float)):
                 ctx.fail("C10.pmf_unstable", "_pmf_predict changed between two calls on the same fitted model")
+        elif kind == "mutate":
+            # the caller reuses its query buffer: same object, rows reversed in place.  Every reported
+            # probability must follow its row (no answer may be remembered by object identity).
+            if nq >= 2:
+                Xq.iloc[:, :] = Xq.iloc[::-1].to_numpy()
+                if "sensitive_features" in kw:
+                    kw["sensitive_features"] = kw["sensitive_features"][::-1].copy()
+                plan_xq_now = ctx.scratch.setdefault("xq_now", list(plan["xq"]))
+                plan_xq_now.reverse()
+                ctx.fault("query_buffer_mutated_in_place")
+                int_outputs = {}  # the query changed: earlier seeded outputs are no longer comparable
+                ok2, pmf2, site = _pmf(ctx, est, Xq, kw)
+                if regression:
+                    pred_by_t = {t: v[::-1].copy() for t, v in pred_by_t.items()}
+                    good = ok2 and all(np.array_equal(np.asarray(pmf2[t], dtype=float), pred_by_t[t]) for t in w.index if w[t] != 0)
+                    pmf = pmf2 if ok2 else pmf
+                else:
+                    p = p[::-1].copy()
+                    good = ok2 and np.abs(np.asarray(pmf2, dtype=float)[:, 1] - p).max() <= 1e-12
+                    pmf = np.asarray(pmf2, dtype=float) if ok2 else pmf
+                if not good:
+                    ctx.fail("C10.pmf_stale_after_inplace_edit", "after the query buffer was edited in place (rows reversed, same object) "
+                             "the reported probabilities do not follow the rows")
+                    return
         elif kind == "ambient":
             ctx.fault("ambient_rng")
             if op[1] == "reseed":
@@ -358,7 +384,7 @@ def _state_digest(est, fam):
 
 
 def _check_thresholder_pmf(ctx, plan, est, p, kw):
-    q = plan["xq"]
+    q = ctx.scratch.get("xq_now", plan["xq"])
     seen = {}
     for i, (s, g) in enumerate(q):
         k = (float(s), g)
